@@ -1,12 +1,84 @@
 (* Properties_C18.v -- exported theorems for C18 (zone lookup by name).  Only statements, each closed by
-   [exact] of a lemma proved elsewhere, each followed by Print Assumptions. *)
+   [exact] of a lemma proved in ProbeCycle.v / HashMapProofs.v, each followed by Print Assumptions.
+
+   Reading guide.  [hmap] is the transcription of cgns_hashmap_object (HashMap.v).  [WF m] = m is the static
+   empty keys object or satisfies the structural invariant [Inv].  [find_val m k] is the abstraction: the value
+   the entry array associates with key k (-1 = absent), computed WITHOUT the index table or any probing.
+   The theorems say that every operation of cg_hashmap.c, which does go through hash, probe sequence,
+   tombstones and resizes, answers and updates exactly as that abstraction prescribes -- for every table
+   size, every set of names and every history. *)
 From Coq Require Import ZArith List.
-From CgnsV Require Import ProbeCycle HashMap ZoneMirror.
+From CgnsV Require Import ListX ProbeCycle HashMap HashMapProofs.
+Import ListNotations.
 Local Open Scope Z_scope.
 
-(* The un-perturbed probe recurrence i <- (5 i + 1) mod 2^p reaches every slot within 2^p steps, for every p. *)
+(* 1. Termination for EVERY table size: the un-perturbed probe i <- (5 i + 1) mod 2^p meets every slot
+      within 2^p steps (hence every probe loop returns within table_size + 13 steps, see probe_reaches). *)
 Theorem C18_probe_full_cycle : forall (p : nat) x t,
   0 <= x < 2 ^ Z.of_nat p -> 0 <= t < 2 ^ Z.of_nat p ->
   exists k : nat, Z.of_nat k < 2 ^ Z.of_nat p /\ lcg_iter (2 ^ Z.of_nat p) k x = t.
 Proof. exact lcg_full_cycle. Qed.
 Print Assumptions C18_probe_full_cycle.
+
+Theorem C18_probe_reaches_every_slot : forall p, 0 <= p <= 60 -> forall hash t,
+  0 <= hash < W -> 0 <= t < 2 ^ p ->
+  exists n : nat, Z.of_nat n < 13 + 2 ^ p /\ fst (slot_seq (2 ^ p - 1) hash n) = t.
+Proof. exact probe_reaches. Qed.
+Print Assumptions C18_probe_reaches_every_slot.
+
+(* 2. Lookup: never runs out of fuel on a well-formed map and returns the associated value, -1 if absent. *)
+Theorem C18_get_refines : forall m k, WF m -> map_get_item m k = Some (find_val m k).
+Proof. exact get_item_correct. Qed.
+Print Assumptions C18_get_refines.
+
+Theorem C18_contains_refines : forall m k, WF m ->
+  map_contains m k = Some (if find_val m k =? -1 then 0 else 1).
+Proof. exact contains_correct. Qed.
+Print Assumptions C18_contains_refines.
+
+(* 3. Insert / overwrite: succeeds (any number of resizes), keeps the invariant, changes k and nothing else. *)
+Theorem C18_set_refines : forall m k v, WF m -> 0 <= v -> m_used m < 2 ^ 57 ->
+  exists m', map_set_item m k v = Some (m', 0) /\ WF m' /\
+    (forall k', find_val m' k' = if key_eqb k' k then v else find_val m k') /\
+    m_used m' <= m_used m + 1.
+Proof. exact set_item_correct. Qed.
+Print Assumptions C18_set_refines.
+
+(* 4. Delete-and-renumber: an absent key is reported (-1) and nothing changes; a present key disappears and
+      exactly the values above the deleted one are decremented. *)
+Theorem C18_del_refines : forall m k, WF m ->
+  exists m' rc, map_del_shift_item m k = Some (m', rc) /\ WF m' /\
+    (find_val m k = -1 -> rc = -1 /\ m' = m) /\
+    (find_val m k <> -1 -> rc = 0 /\
+       forall k', find_val m' k' =
+         if key_eqb k' k then -1
+         else let v' := find_val m k' in if find_val m k <? v' then v' - 1 else v').
+Proof. exact del_item_correct. Qed.
+Print Assumptions C18_del_refines.
+
+(* 5. Every history: the sequence of integers returned by set/get/contains/delete/clear/presize on the real
+      data structure equals the sequence returned by the plain association [amap] -- whatever the names
+      (equal hash residues included), however many growth thresholds are crossed, wherever deletions fall. *)
+Theorem C18_history_refines : forall ops, Forall op_ok ops -> lenZ ops < 2 ^ 57 ->
+  run empty_map ops = Some (spec_run a_empty ops).
+Proof. exact run_from_empty. Qed.
+Print Assumptions C18_history_refines.
+
+(* non-vacuity: the hypotheses are met by a concrete history with a resize (6 inserts), deletes and lookups *)
+Example C18_history_example :
+  let ops := [MSet [65] 0; MSet [66] 1; MSet [67] 2; MSet [68] 3; MSet [69] 4; MSet [70] 5;
+              MDel [65]; MGet [66]; MGet [70]; MDel [68]; MGet [70]; MHas [65]; MGet [65]] in
+  Forall op_ok ops /\ run empty_map ops = Some [0; 0; 0; 0; 0; 0; 0; 0; 4; 0; 3; 0; -1].
+Proof. split; [repeat constructor; cbn; try discriminate; try exact I|vm_compute; reflexivity]. Qed.
+
+(* 6. The defect this property found (loop bound map_usable in _cg_del_shift_item_known_hash, repaired in
+      /repo commit 51b5ae6): with the old bound, after inserting A,B,C,D and deleting A, B still maps to 1. *)
+Theorem C18_old_loop_bound_refuted :
+  let ks := [[65]; [66]; [67]; [68]] in
+  exists m, fold_left (fun om kv => match om with
+                                    | Some m => option_map fst (map_set_item m (fst kv) (snd kv))
+                                    | None => None end)
+                      (combine ks [0; 1; 2; 3]) (Some empty_map) = Some m /\
+  exists m', map_del_shift_item_old m [65] = Some (m', 0) /\ map_get_item m' [66] = Some 1.
+Proof. exact old_bound_refuted. Qed.
+Print Assumptions C18_old_loop_bound_refuted.
